@@ -1,0 +1,71 @@
+//go:build verif
+
+// Contracts for package ipfslog (log.go, log_io.go), checked by /verif (govc). Comment-only.
+package ipfslog
+
+// ---- vocabulary ----
+// om(m): the concrete ordered map behind an interface value (closed world: *entry.OrderedMap is the only implementation)
+//@ define om(m iface.IPFSLogOrderedEntries) = m.(*entry.OrderedMap)
+// validEntries(m): an ordered map that indexes well-formed entries by their own hash
+//@ define validEntries(m iface.IPFSLogOrderedEntries) = isOM(m) && (forall k string :: has(om(m).values, k) ==> validEntry(om(m).values[k]) && ehash(om(m).values[k]) == k)
+//@ define validSlice(s []iface.IPFSLogEntry) = forall i int :: 0 <= i && i < len(s) ==> validEntry(s[i])
+//@ define inMap(m iface.IPFSLogOrderedEntries, e iface.IPFSLogEntry) = has(om(m).values, ehash(e)) && om(m).values[ehash(e)] == e
+//@ define logInv(l *IPFSLog) = l != nil && validEntries(l.Entries) && validEntries(l.heads) && isOM(l.Next) && validClock(l.Clock) && l.Identity != nil && l.SortFn != nil && l.AccessController != nil && validAnyIO(l.io) && l.Storage != nil
+
+//@ guarded IPFSLog.Entries by IPFSLog.lock
+//@ guarded IPFSLog.heads by IPFSLog.lock
+//@ guarded IPFSLog.Next by IPFSLog.lock
+//@ guarded IPFSLog.Clock by IPFSLog.lock
+//@ guarded IPFSLog.Identity by IPFSLog.lock
+
+//@ func maxInt
+//@   pure
+//@   ensures result == max(x, y)
+
+//@ func minInt
+//@   pure
+//@   ensures result == min(x, y)
+
+//@ func maxClockTimeForEntries
+//@   requires validSlice(entries)
+//@   pure
+//@   ensures result >= defValue && (forall i int :: 0 <= i && i < len(entries) ==> result >= etime(entries[i]))
+//@   ensures result == defValue || (exists i int :: 0 <= i && i < len(entries) && result == etime(entries[i]))
+//@   loop 0
+//@     invariant max >= defValue && (forall i int :: 0 <= i && i < $k ==> max >= etime(entries[i]))
+//@     invariant max == defValue || (exists i int :: 0 <= i && i < $k && max == etime(entries[i]))
+
+//@ func (*IPFSLog).sortedHeads
+//@   requires l != nil && l.SortFn != nil && validSlice(heads)
+//@   modifies elems(heads)
+//@   ensures validEntries(result) && fresh(result) && fresh(om(result).values)
+//@   ensures forall i int :: 0 <= i && i < len(heads) ==> has(om(result).values, ehash(old(heads[i])))
+//@   ensures forall k string :: has(om(result).values, k) ==> exists i int :: 0 <= i && i < len(heads) && om(result).values[k] == old(heads[i])
+//@   lockensures held[om(result).lock] == 0
+
+//@ func (*IPFSLog).traverse
+//@   requires l != nil && validEntries(l.Entries) && l.SortFn != nil
+//@   requires rootEntries == nil || validEntries(rootEntries)
+//@   lockrequires held[l.lock] != 0
+//@   ensures rootEntries == nil ==> err != nil
+//@   ensures rootEntries != nil ==> err == nil && validEntries(result0) && fresh(result0) && fresh(om(result0).values)
+//@   ensures [traverse-respects-amount] rootEntries != nil && amount >= 0 ==> len(om(result0).keys) <= amount
+//@   ensures [traverse-returns-roots-or-log-entries] rootEntries != nil ==> forall k string :: has(om(result0).values, k) ==> inMap(rootEntries, om(result0).values[k]) || inMap(l.Entries, om(result0).values[k])
+//@   lockensures rootEntries != nil ==> held[om(result0).lock] == 0
+//@   loop 0
+//@     invariant validEntries(result) && fresh(result) && fresh(om(result).values) && fresh(traversed) && fresh(stack)
+//@     invariant validSlice(stack)
+//@     invariant amount >= 0 ==> 0 <= count && len(om(result).keys) <= count && count <= amount
+//@     invariant forall k string :: has(om(result).values, k) ==> inMap(rootEntries, om(result).values[k]) || inMap(l.Entries, om(result).values[k])
+//@     invariant forall i int :: 0 <= i && i < len(stack) ==> inMap(rootEntries, stack[i]) || inMap(l.Entries, stack[i])
+//@     lockinvariant held[om(result).lock] == 0
+//@     loopfresh
+//@   loop 1
+//@     invariant validEntries(result) && fresh(result) && fresh(om(result).values) && fresh(traversed) && fresh(stack)
+//@     invariant validSlice(stack)
+//@     invariant amount >= 0 ==> 0 <= count && len(om(result).keys) <= count && count <= amount
+//@     invariant forall k string :: has(om(result).values, k) ==> inMap(rootEntries, om(result).values[k]) || inMap(l.Entries, om(result).values[k])
+//@     invariant forall i int :: 0 <= i && i < len(stack) ==> inMap(rootEntries, stack[i]) || inMap(l.Entries, stack[i])
+//@     invariant validEntry(e)
+//@     lockinvariant held[om(result).lock] == 0
+//@     loopfresh
